@@ -738,6 +738,22 @@ pub fn gen_parse(rng: &mut Rng, sw: &Swarm, now: &Reading) -> OpKind {
         });
     }
 
+    // now and then pad the picture with tolerant separators up to the internal
+    // limit of 36 fields (their text is omitted: the input ends before them)
+    if !toks.is_empty() && rng.chance(1, 14) {
+        let target = *rng.pick(&[34usize, 35, 35, 36, 36]);
+        let mut k = 0;
+        while toks.len() < target {
+            let ch = [b'-', b':', b'.'][k % 3];
+            k += 1;
+            toks.push(Tok {
+                pic: (ch as char).to_string(),
+                txt: String::new(),
+                sem: Sem::Sep { ch },
+            });
+        }
+    }
+
     if truncate && !toks.is_empty() {
         // omit the text of a tail of tokens; mostly inside the time part
         let first_time = toks.iter().position(|t| {
